@@ -113,6 +113,8 @@ def tangent_lemma(n):
 
 def add_ray(u):
     gh = 'impl<T: Real + Add<T, Output = T>> Ray<T>'
+    # the constructor stores origin and direction as given (the intersection parameter is in units of the given direction)
+    u.take(P, gh, 'new', C(ensures=['res.origin == origin', 'res.direction == direction']), mode='G')
     o, dr = SV.of(V3, 'self.origin'), SV.of(V3, 'self.direction')
     v0, v1, v2 = SV.of(V3, 'tri@[0]'), SV.of(V3, 'tri@[1]'), SV.of(V3, 'tri@[2]')
     e1, e2 = v1 - v0, v2 - v0
